@@ -230,6 +230,20 @@ def run_model_history(case, ctx):
                 nm.add_quantum_error(g2, k2, p2)
                 spec[g2].append((k2, p2))
                 log.append([g2, k2, p2])
+        # re-registering a channel kind a gate already has - whatever was registered in between - is a malformed specification:
+        # it must be refused and leave the model as it was (the simulation below still has to match `spec`)
+        g3 = pr.choice(list(spec))
+        k3 = pr.choice([k for k, _ in spec[g3]])
+        p3 = [0.02, 0.03, 0.01] if k3 == "pauli" else 0.15
+        try:
+            nm.add_quantum_error(g3, k3, p3)
+            refused = False
+        except ValueError:
+            refused = True
+        ctx.tab("duplicate_after", f"{len(spec[g3])} channel(s), re-adding the {'last' if spec[g3][-1][0] == k3 else 'earlier'} kind")
+        if not ctx.check("malformed_rejected", refused, "a second channel of a kind already registered on the gate was accepted (it would be applied twice)",
+                         lambda: {"errors_registered_so_far": log, "re_added": [g3, k3, p3]}):
+            return
         rho = reference_rho(gates, n, spec)
         if step % 2 == 0:
             tc = translate_circuit(circ, "cirq", output_options={"noise_model": nm})
@@ -284,6 +298,15 @@ def run_malformed(case, ctx):
         nm = nm_with("CNOT", "pauli", [0.1, 0.0, 0.0])
         nm.add_quantum_error("CNOT", "pauli", [0.0, 0.1, 0.0])
     must_reject("duplicate pauli channel on one gate", dup2)
+
+    def dup3(first, second):
+        def f():
+            nm = nm_with("H", first, [0.1, 0.0, 0.0] if first == "pauli" else 0.1)
+            nm.add_quantum_error("H", second, [0.1, 0.0, 0.0] if second == "pauli" else 0.1)
+            nm.add_quantum_error("H", first, [0.0, 0.1, 0.0] if first == "pauli" else 0.2)
+        return f
+    must_reject("pauli, depol, pauli on one gate", dup3("pauli", "depol"))
+    must_reject("depol, pauli, depol on one gate", dup3("depol", "pauli"))
     must_reject("depol rate > 1", lambda: run(nm_with("X", "depol", 1.5)))
     must_reject("depol rate < 0", lambda: run(nm_with("X", "depol", -0.1)))
     must_reject("pauli rate < 0", lambda: run(nm_with("X", "pauli", [-0.1, 0.0, 0.0])))
